@@ -104,12 +104,19 @@ Section FS.
      directory part is not a file *)
   Definition target_ok (fs : fsys) (p : path) : bool :=
     negb (is_nil p) && negb (is_dir fs p) && negb (existsb (is_file fs) (prefixes (dirname p))).
+  (* overwrite requested, or nothing at the target *)
+  Definition fresh_or_overwrite (fs : fsys) (p : path) (ow : bool) : bool := ow || negb (is_file fs p).
   (* states that a real directory tree can be in: every ancestor of a directory or of a file is a directory *)
   Definition fs_wf (fs : fsys) : bool :=
     forallb (fun d => forallb (is_dir fs) (prefixes d)) (dirs fs)
     && forallb (fun e => forallb (is_dir fs) (prefixes (dirname (fst e)))) (files fs).
 End FS.
 Arguments fsys C : clear implicits.
+(* two targets neither of which is the other or an ancestor directory of the other *)
+Definition indep (p q : path) : bool :=
+  negb (path_eqb p q) && negb (existsb (path_eqb q) (prefixes (dirname p))) && negb (existsb (path_eqb p) (prefixes (dirname q))).
+(* the valid hdu indices of a one-HDU file *)
+Definition sole_index (k : Z) : bool := ((k =? 0) || (k =? -1))%Z.
 
 (* ------------------------------------------------------------------ HDUs, util functions *)
 Inductive hkey : Set := PIXSCALE | PIXSCALEY | PIXSCALEX.
